@@ -17,6 +17,7 @@ CONSTANTS Users, Epochs, Versions, Values, NodeNames, AzksEpochs,
           HasCache,                  \* the manager was created with a cache
           CachePutBeforeDbWrite,     \* TRUE = pinned behaviour (cache filled before the database write)
           BulkVersionsUsesEpoch,     \* TRUE = pinned behaviour of get_user_state_versions inside a transaction
+          FlushBumpsGeneration,      \* TRUE = as the code: a flush moves the write generation, so that database answers still in flight are not cached afterwards
           FlushIgnoresCleanFlag,     \* TRUE = as the code: flush_cache always empties the cache (FALSE: a flush that is skipped while cleaning is disabled)
           FillPolicy                 \* what a read that missed does with the database's answer when it arrives:
                                      \* "always" (pinned: put it into the cache), "if_absent", "if_same_generation" (repaired)
@@ -208,11 +209,12 @@ Rollback(res) ==
 (* flush_cache: afterwards reads reflect storage, also for what another instance wrote *)
 Flush ==
   /\ IF FlushIgnoresCleanFlag \/ canClean
-       THEN cacheAzks' = {} /\ cacheMap' = {} /\ BumpGen
+       THEN /\ cacheAzks' = {} /\ cacheMap' = {}
+            /\ IF FlushBumpsGeneration THEN BumpGen ELSE UNCHANGED gen
        ELSE UNCHANGED <<cacheAzks, cacheMap, gen>>
   /\ extStale' = {}
-  /\ inflight' = {}        \* (answers still in flight are from before the flush; the generation guard drops them)
-  /\ UNCHANGED <<db, txnActive, txnMods, canClean, rejectNext>>
+  \* answers still in flight stay in flight: it is the generation guard that must keep them out of the cache
+  /\ UNCHANGED <<db, txnActive, txnMods, canClean, rejectNext, inflight>>
 
 (* another instance (its own manager) writes to the same database *)
 ExtWrite(R) ==
